@@ -7,6 +7,7 @@ package c13
 import (
 	"errors"
 	"fmt"
+	"math/big"
 	"strconv"
 	"strings"
 
@@ -25,6 +26,7 @@ import (
 
 type Interp struct {
 	clk *vh.Clock
+	reg map[string][]interface{} // per module: controller objects in the order ctrlhist first showed them
 }
 
 func New() vh.Interp {
@@ -37,6 +39,7 @@ const idleMs = 100_000
 func (it *Interp) idle() { it.clk.Ns += idleMs * 1e6 }
 
 func (it *Interp) Reset() {
+	it.reg = map[string][]interface{}{}
 	_ = flow.ClearRules()
 	_ = isolation.ClearRules()
 	_ = hotspot.ClearRules()
@@ -69,20 +72,46 @@ func half(s string) float64 { return float64(vh.I(s)) / 2 }
 // halves prints a float that is a multiple of 1/2 as the integer number of halves.
 func halves(f float64) string { return strconv.FormatInt(int64(f*2), 10) }
 
+// qToF converts a threshold given as an exact integer number of 2^-60 units into the float64 it denotes.
+func qToF(s string) float64 {
+	n, ok := new(big.Int).SetString(s, 10)
+	if !ok {
+		panic("bad threshold " + s)
+	}
+	f := new(big.Float).SetPrec(256).SetInt(n)
+	f.SetMantExp(f, -60)
+	v, acc := f.Float64()
+	if acc != big.Exact {
+		panic("threshold is not a float64: " + s)
+	}
+	return v
+}
+
+// fToQ prints a float64 as the exact integer number of 2^-60 units (every value the harness loads is one).
+func fToQ(v float64) string {
+	f := new(big.Float).SetPrec(256).SetFloat64(v)
+	f.SetMantExp(f, 60)
+	n, acc := f.Int(nil)
+	if acc != big.Exact {
+		return "inexact:" + strconv.FormatFloat(v, 'g', -1, 64)
+	}
+	return n.String()
+}
+
 func parseFlow(s string) *flow.Rule {
 	f := strings.Split(s, ",")
 	if len(f) != 15 {
 		panic("bad flow rule " + s)
 	}
 	return &flow.Rule{ID: str(f[14]), Resource: str(f[0]), TokenCalculateStrategy: flow.TokenCalculateStrategy(vh.I(f[1])),
-		ControlBehavior: flow.ControlBehavior(vh.I(f[2])), Threshold: half(f[3]), RelationStrategy: flow.RelationStrategy(vh.I(f[4])),
+		ControlBehavior: flow.ControlBehavior(vh.I(f[2])), Threshold: qToF(f[3]), RelationStrategy: flow.RelationStrategy(vh.I(f[4])),
 		RefResource: str(f[5]), MaxQueueingTimeMs: uint32(vh.U(f[6])), WarmUpPeriodSec: uint32(vh.U(f[7])), WarmUpColdFactor: uint32(vh.U(f[8])),
 		StatIntervalInMs: uint32(vh.U(f[9])), LowMemUsageThreshold: vh.I(f[10]), HighMemUsageThreshold: vh.I(f[11]),
 		MemLowWaterMarkBytes: vh.I(f[12]), MemHighWaterMarkBytes: vh.I(f[13])}
 }
 
 func showFlow(r *flow.Rule) string {
-	return fmt.Sprintf("%s,%d,%d,%s,%d,%s,%d,%d,%d,%d,%d,%d,%d,%d,%s", ustr(r.Resource), r.TokenCalculateStrategy, r.ControlBehavior, halves(r.Threshold),
+	return fmt.Sprintf("%s,%d,%d,%s,%d,%s,%d,%d,%d,%d,%d,%d,%d,%d,%s", ustr(r.Resource), r.TokenCalculateStrategy, r.ControlBehavior, fToQ(r.Threshold),
 		r.RelationStrategy, ustr(r.RefResource), r.MaxQueueingTimeMs, r.WarmUpPeriodSec, r.WarmUpColdFactor, r.StatIntervalInMs,
 		r.LowMemUsageThreshold, r.HighMemUsageThreshold, r.MemLowWaterMarkBytes, r.MemHighWaterMarkBytes, ustr(r.ID))
 }
@@ -140,12 +169,12 @@ func parseCb(s string) *cb.Rule {
 	}
 	return &cb.Rule{Id: str(f[9]), Resource: str(f[0]), Strategy: cb.Strategy(vh.U(f[1])), RetryTimeoutMs: uint32(vh.U(f[2])), MinRequestAmount: vh.U(f[3]),
 		StatIntervalMs: uint32(vh.U(f[4])), StatSlidingWindowBucketCount: uint32(vh.U(f[5])), MaxAllowedRtMs: vh.U(f[6]),
-		Threshold: half(f[7]), ProbeNum: vh.U(f[8])}
+		Threshold: qToF(f[7]), ProbeNum: vh.U(f[8])}
 }
 
 func showCb(r *cb.Rule) string {
 	return fmt.Sprintf("%s,%d,%d,%d,%d,%d,%d,%s,%d,%s", ustr(r.Resource), r.Strategy, r.RetryTimeoutMs, r.MinRequestAmount, r.StatIntervalMs,
-		r.StatSlidingWindowBucketCount, r.MaxAllowedRtMs, halves(r.Threshold), r.ProbeNum, ustr(r.Id))
+		r.StatSlidingWindowBucketCount, r.MaxAllowedRtMs, fToQ(r.Threshold), r.ProbeNum, ustr(r.Id))
 }
 
 func parseSys(s string) *system.Rule {
@@ -314,7 +343,7 @@ func (it *Interp) Step(t []string, op string) string {
 			panic("bad module")
 		}
 		return vh.List(xs)
-	case "ctrlids":
+	case "ctrlids", "ctrlhist":
 		res := str(t[2])
 		var objs []interface{}
 		switch t[1] {
@@ -333,8 +362,13 @@ func (it *Interp) Step(t []string, op string) string {
 		default:
 			panic("bad module")
 		}
-		// identity classes in first-appearance order
+		// identity classes in first-appearance order (ctrlhist: over the whole case)
 		var firsts []interface{}
+		if t[0] == "ctrlhist" {
+			key := t[1] + "/" + res
+			firsts = it.reg[key]
+			defer func() { it.reg[key] = firsts }()
+		}
 		var xs []string
 		for _, o := range objs {
 			k := -1
@@ -503,9 +537,12 @@ func (it *Interp) probeSeq(t []string) string {
 		case flow.Direct, flow.MemoryAdaptive:
 		case flow.WarmUp:
 			// cold threshold T/coldFactor: modelled when it is not an integer (and T is)
-			t2 := int64(r.Threshold * 2)
-			known = known && r.ControlBehavior == flow.Reject && t2%2 == 0 && r.WarmUpColdFactor != 0 && t2%(2*int64(r.WarmUpColdFactor)) != 0 &&
-				int64(r.WarmUpPeriodSec)*t2 >= 1+int64(r.WarmUpColdFactor) // maxToken > warningToken (else slope is +Inf: C11 warmup-nan)
+			// cold threshold T/coldFactor: modelled when T is an integer ≤ 2^40, T/coldFactor is not an integer and
+			// maxToken > warningToken (else the slope is +Inf: C11 warmup-nan)
+			T := int64(r.Threshold)
+			cf := int64(r.WarmUpColdFactor)
+			known = known && r.ControlBehavior == flow.Reject && r.Threshold >= 0 && r.Threshold <= 1<<40 && float64(T) == r.Threshold &&
+				cf != 0 && T%cf != 0 && 2*int64(r.WarmUpPeriodSec)*T >= 1+cf
 		default:
 			known = false
 		}
